@@ -226,3 +226,4 @@ def run(rep):
     rep.floor("NO-PANIC", 2)
     rep.exhaustive = True
     rep.assumptions.append("panics inside the solver are owned by C03; here only validate()'s own code is inspected")
+    rep.assumptions.append("the validate evaluation is exhaustive for example lists up to length 2 over five example classes with the solver as an oracle table; longer lists are covered by the loop rules")
